@@ -156,24 +156,37 @@ func vfHxSeq(t *testing.T, sc *vfHxScript, out *vfWriter) {
 	type bound struct {
 		id     int
 		writer interceptor.RTPWriter
+		info   *interceptor.StreamInfo
 	}
 	streams := map[uint32]*bound{}
 	var outs []vfM
 	var ds []int
-	for _, st := range sc.Streams {
-		ssrc := st.S
-		w := hx.BindLocalStream(vfHxInfo(ssrc, st.ID, st.Decoy), interceptor.RTPWriterFunc(
+	bind := func(ssrc uint32, id, decoy int) {
+		info := vfHxInfo(ssrc, id, decoy)
+		w := hx.BindLocalStream(info, interceptor.RTPWriterFunc(
 			func(h *rtp.Header, pl []byte, _ interceptor.Attributes) (int, error) {
 				outs = append(outs, vfPkt(h, pl))
 				ds = append(ds, int(ssrc))
 
 				return h.MarshalSize() + len(pl), nil
 			}))
-		streams[ssrc] = &bound{id: st.ID, writer: w}
-		out.Emit(vfM{"a": "bind", "s": ssrc, "id": st.ID})
+		streams[ssrc] = &bound{id: id, writer: w, info: info}
+		out.Emit(vfM{"a": "bind", "s": ssrc, "id": id})
+	}
+	for _, st := range sc.Streams {
+		bind(st.S, st.ID, st.Decoy)
 	}
 	for _, st := range sc.Steps {
 		b := streams[st.S]
+		if b != nil && st.A == "rebind" {
+			// renegotiation: the SSRC is bound again under another extension id (st.ID), then the OLD binding is unbound;
+			// packets written through the new binding are numbered under the new id
+			old := b.info
+			bind(st.S, st.ID, 0)
+			hx.UnbindLocalStream(old)
+
+			continue
+		}
 		if b == nil || st.A != "write" {
 			t.Fatalf("VERIF-INFRA bad step %+v", st)
 		}
